@@ -47,10 +47,13 @@ MergeProps(a, b) ==      \* union of two optional [properties |-> ...] records
 R1Doc(rid, id1, id2, loc, rf) ==
   LET inner == [id |-> IdOf(RelRef(<<"inner.json">>)), defs |-> [t |-> Tgt(3)]] @@ WithRef(loc, "in", rf)
       e1 == [id |-> id1, defs |-> [t |-> Tgt(1)]] @@ MergeProps([properties |-> [in |-> inner]], WithRef(loc, "e1", rf))
-      e2 == [id |-> id2, defs |-> [t |-> Tgt(2)]] @@ WithRef(loc, "e2", rf)
+      \* two fixed referrers with the SAME reference text "#/$defs/t" in different resources:
+      \* a pointer fragment is evaluated against the resource the non-fragment part selects
+      fix == [properties |-> [r0 |-> [ref |-> LocalRef(PDefsT)]]]
+      e2 == [id |-> id2, defs |-> [t |-> Tgt(2)]] @@ MergeProps(fix, WithRef(loc, "e2", rf))
   IN (IF rid = <<>> THEN <<>> ELSE [id |-> rid[1]])
      @@ [defs |-> [t |-> Tgt(0)]]
-     @@ MergeProps([properties |-> [e1 |-> e1, e2 |-> e2]], WithRef(loc, "root", rf))
+     @@ MergeProps(MergeProps([properties |-> [e1 |-> e1, e2 |-> e2]], fix), WithRef(loc, "root", rf))
 \* instance that routes the mark m to the referrer at loc
 Route(loc, v) ==
   CASE loc = "root" -> Obj([r |-> v])
@@ -59,7 +62,8 @@ Route(loc, v) ==
     [] loc = "e2"   -> Obj([e2 |-> Obj([r |-> v])])
 R1Cases(z) ==
   {[u |-> [docs |-> <<[uri |-> b, s |-> R1Doc(rid, id1, id2, loc, Ref(ru, f))]>>],
-    insts |-> [i \in 1..5 |-> Route(loc, IF i = 5 THEN Str("a") ELSE Num(Mark[i]))]] :
+    insts |-> [i \in 1..5 |-> Route(loc, IF i = 5 THEN Str("a") ELSE Num(Mark[i]))]
+              \o [i \in 1..4 |-> Obj([r0 |-> Num(Mark[i])])] \o [i \in 1..4 |-> Obj([e2 |-> Obj([r0 |-> Num(Mark[i])])])]] :
       b \in R1Bases, rid \in (IF K >= 2 THEN R1RootIds ELSE {<<>>, <<IdOf(RelRef(<<"rid.json">>))>>}),
       id1 \in (IF K >= 2 THEN R1Ids1 ELSE {IdOf(RelRef(<<"e.json">>)), IdOf(H2(<<"e.json">>))}),
       id2 \in (IF K >= 3 THEN R1Ids2 ELSE {IdOf(RelRef(<<"f.json">>))}),
